@@ -598,11 +598,11 @@ def run(run):
         E = effects.Effects(F)
         run.count('fact units')
         decided = refinement(run, F)
-        bit_index_rules(run, F, E, decided)
-        invariant_rules(run, F, E, decided)
-        extent_rules(run, F, E, decided)
+        run.guard('bit index rules', bit_index_rules, run, F, E, decided)
+        run.guard('invariant rules', invariant_rules, run, F, E, decided)
+        run.guard('extent rules', extent_rules, run, F, E, decided)
         if w != 'w_bitarrays':
-            array_rules(run, F, E)
+            run.guard('array rules', array_rules, run, F, E)
         facts.drop(F)
         cfgmod.clear_cache()
     run.floor('C20.a', 20)
@@ -611,7 +611,7 @@ def run(run):
     run.floor('C20.d', 20)
     run.floor('C20.e', 1500)
     from gen import static_units
-    static_units.report(run, 'C20.f', static_units.capacity_unit('C20.f'))
+    run.guard('report', static_units.report, run, 'C20.f', static_units.capacity_unit('C20.f'))
     run.floor('C20.f', 1)
     run.explanation = (
         'Sibling agreement of the get/set/clear index arithmetic after normalisation, a representation-invariant argument '
